@@ -44,6 +44,53 @@ def object_settings(ctor):
             'return_samples': ctor.get('return_samples', True)}
 
 
+def _object_defaults_impl(ctor_live, kind):
+    """What a freshly constructed object holds for the settings the caller left out."""
+    import warnings
+    warnings.simplefilter('ignore')
+    from bycycle.objs import Bycycle, BycycleGroup
+    cls = BycycleGroup if kind == 'group' else Bycycle
+    obj = cls(center_extrema=ctor_live['center_extrema'], burst_method=ctor_live['burst_method'],
+              burst_kwargs=ctor_live['burst_kwargs'], thresholds=ctor_live['thresholds'],
+              find_extrema_kwargs=ctor_live['find_extrema_kwargs'],
+              return_samples=ctor_live['return_samples'])
+    out = {}
+    for key, attr in (('thresholds', 'thresholds'), ('burst_kwargs', 'burst_kwargs'),
+                      ('find_extrema_kwargs', 'find_extrema_kwargs')):
+        if ctor_live.get(key) is None and isinstance(getattr(obj, attr, None), dict):
+            out[key] = copy.deepcopy(getattr(obj, attr))
+    return out
+
+
+def object_settings_checked(ctor, kind='single'):
+    """object_settings, but the values of settings the caller did *not* give (None) are taken
+    from a freshly constructed object (in a pristine fork): which defaults an object chooses is
+    not part of the property, that every fit uses them is."""
+    from . import pristine
+    s = object_settings(ctor)
+    try:
+        c = live({k: ctor.get(k) for k in ('center_extrema', 'burst_method', 'burst_kwargs', 'thresholds',
+                                           'find_extrema_kwargs', 'return_samples')})
+        c.setdefault('center_extrema', 'peak')
+        c.setdefault('burst_method', 'cycles')
+        if c.get('center_extrema') is None:
+            c['center_extrema'] = 'peak'
+        if c.get('burst_method') is None:
+            c['burst_method'] = 'cycles'
+        if c.get('return_samples') is None:
+            c['return_samples'] = True
+        d = pristine.call('simcheck.ref:_object_defaults_impl', c, kind)
+    except Exception:
+        return s
+    if 'thresholds' in d:
+        s['threshold_kwargs'] = d['thresholds']
+    if 'burst_kwargs' in d:
+        s['burst_kwargs'] = d['burst_kwargs']
+    if 'find_extrema_kwargs' in d:
+        s['find_extrema_kwargs'] = d['find_extrema_kwargs']
+    return s
+
+
 def live(settings):
     """Fresh deep copy with tuples where the API documents tuples."""
     s = copy.deepcopy(settings)
